@@ -128,6 +128,9 @@ func (op *MergeOperator) compact() error {
 }
 
 func (op *MergeOperator) runCompactions(dur time.Duration) {
+	if vhook.On {
+		vhook.Point("merge.start:" + string(op.key))
+	}
 	ticker := time.NewTicker(dur)
 	defer op.closer.Done()
 	var stop bool
